@@ -44,7 +44,7 @@ CHECKS = {
                                       "induction over operation sequences) + differential on re-based programs + library-vs-"
                                       "library twin monitor"),
     "C05": dict(
-        text="Theorems C05_assign_exact, C05_moved_exact, C05_fill, C05_swap, C05_assign_values (Coq, any views, any sizes): the "
+        text="Theorems C05_assign_exact, C05_moved_exact, C05_fill, C05_swap, C05_assign_values, C05_block_copy_refuted (a block copy is not assignment even for gap-free operands with equal extensions: compactness is not canonical order; the harness takes a third of its view assignments through a source of another static type so that the converting overloads are selected, and the generator has a family of gap-free pairs in different rotations) (Coq, any views, any sizes): the "
              "sequential element loops the library runs for =, elements()=, fill, swap, =element_moved() and range assignment set "
              "exactly the k-th destination element to the (converted) k-th source value for every canonical position k, mark "
              "exactly the source view's cells as moved-from, exchange both footprints, and leave every address outside the "
